@@ -28,6 +28,7 @@ type Op13 struct {
 	Via    string `json:"via,omitempty"`   // inbound: data | chan | unknown-chan
 	Writers int   `json:"writers,omitempty"` // concurrent writers to the same peer
 	Empty   bool  `json:"empty,omitempty"`   // inbound: the peer's datagram is empty (a zero-length payload is a datagram too)
+	Cookie  bool  `json:"cookie,omitempty"`  // inbound: the payload begins with the STUN magic cookie (application data may)
 }
 
 // C13Case is the replay format.
@@ -492,6 +493,10 @@ func runC13Inner(c *C13Case) (res c13Result) { //nolint:cyclop,gocyclo,maintidx
 				if op.Empty && b%2 == 0 {
 					payload = []byte{}
 				}
+				if op.Cookie && b%2 == 1 || op.Cookie && !op.Empty {
+					payload = append([]byte{0x21, 0x12, 0xA4, 0x42}, payload...)
+					payload = append(payload, bytes.Repeat([]byte{0x5A}, 16)...) // long enough to pass for a STUN header
+				}
 				srv.mu.Lock()
 				num, has := srv.peerChan[pa.String()]
 				isBound := has && srv.bound[num] == pa.String()
@@ -725,6 +730,7 @@ func genC13(rt *rapid.T) *C13Case {
 			op.Burst = rapid.SampledFrom([]int{1, 1, 2, 3, 50, 1023, 1024, 1025, 3000}).Draw(rt, "burst")
 			op.Via = rapid.SampledFrom([]string{"data", "chan", "chan", "unknown-chan"}).Draw(rt, "via")
 			op.Empty = rapid.IntRange(0, 4).Draw(rt, "empty") == 0
+			op.Cookie = rapid.IntRange(0, 4).Draw(rt, "cookie") == 0
 		case "deadline":
 			op.N = rapid.SampledFrom([]int{1, 50, 1000, 30000}).Draw(rt, "ms")
 		case "sleep":
